@@ -144,6 +144,8 @@ var c10CopyExempt = map[string]string{}
 func c10(c *Ctx) {
 	c10HistorySkipCounter(c, "C10.4/history-skip-counter-starts-after-memory-versions")
 	c10ReaderRestart(c, "C10.7/reader-restart-resets-iteration-state")
+	// prefix readers: a bound clamped to the prefix range is inclusive (analysis shared with C04.7)
+	c04ScanBounds(c, "C10.8/clamped-scan-bound-is-inclusive")
 	// ---- C10.1 copy-on-write -----------------------------------------------------------------------
 	r := "C10.1/copy-on-write"
 	nw := 0
